@@ -4,11 +4,12 @@ From HbsLms Require Import Base.Bytes Model.Consts Model.Counter.
 
 Local Open Scope N_scope.
 
+Notation param := (otsp * lmsp)%type (only parsing).
+
 Section KeyBlob.
   Variable K : consts.
   Variable n : nat.
 
-  Definition param := (otsp * lmsp)%type.
 
   (* build-time limits: level i may use tree heights up to TREE_HEIGHTS[i] and Winternitz
      parameters from WINTERNITZ_PARAMETERS[i] upwards; there are MAX_ALLOWED_HSS_LEVELS levels *)
